@@ -7,24 +7,20 @@
   for exact arithmetic, for the software binary64 the driver runs, and for any other
   implementation of the interface.
 
-  NOT proved here (kept as statements, carried by the correspondence stream and the
-  harness oracle only):
-    * print_f_buffer_iff — for the ORIGINAL, unguarded code: the run faults iff
-      1 + exponent text + separator + fraction digits + point + integer digits > 65.
-      Only the two directions actually used are proved: the repaired code never faults
-      (`print_f_safe`, all instances) and the original code does fault on a concrete
-      argument (`print_f_safe_orig_witness`).
-    * print_f_exact_Q — over `exactA`, %.pf prints round-half-away(r * 10^p) / 10^p and
-      %e the normalised mantissa/exponent.  Only evaluated on samples (`example`s below,
-      kernel-checked), not proved for all rationals.
-    * termination of the two normalisation loops `while (ip >= base)` / `while (ip == 0)`
-      for finite arguments: over binary64 they need at most 308 / 324 passes; the model
-      runs them with fuel 1200 and would print `diverged`, the harness has a 3 s watchdog.
-      Every other loop of print_f is bounded by a constant of the configuration or by
-      `precision` by construction (structural recursion in the model).
+  What is and is not proved is listed in notes/C13.md and checks/C13.json (level_text).  In short:
+  safety / count / layout for EVERY arithmetic instance; for binary64 (and every rounding with the
+  laws `Lawful`, resp. `Lawful` + `Sharp`): totality, the ISO shape of the %f/%e text against the
+  independent predicate `isoShape`, that the buffer guard never truncates, and the accumulated
+  rounding error of the digit generation (half a unit + 2*K*u*x).  NOT proved: print_f_buffer_iff for the
+  unguarded original (only its two used directions), the shape of %g (finding C13-g-style-carry; witness
+  `print_f_iso_shape_g_witness`), that the digit emission loops print exactly the decimal expansion
+  of the numbers handed to them, the error bound for denormals / precision > 22 over binary64 / %g,
+  the tight pass counts 308 / 324.
 -/
 import IgrisModel.C13.Lemmas
 import IgrisModel.C13.Total2
+import IgrisModel.C13.ShapeMain
+import IgrisModel.C13.ErrBound
 namespace Igris.C13
 open Igris.C06 (Ops NUL)
 
@@ -330,5 +326,185 @@ theorem print_f_L_overflow_witness (fuel : Nat) (ep : FV) :
   induction fuel generalizing ep with
   | zero => simp [normDown, h1]
   | succ n ih => simp only [normDown, h1, if_true, h2]; exact ih _
+
+/-! ## Second extension: the ISO shape of the text, the accumulated rounding error of the digit generation -/
+
+/-- **print_f_iso_shape_b64** (ISO C 7.21.6.1, %f %F %e %E) — for EVERY finite binary64 argument (either sign,
+zero, denormals, DBL_MAX), every flag set, width and precision 0..INT_MAX, the text the repaired print_f emits
+over the software binary64 satisfies the INDEPENDENT shape predicate `isoShape` of `Shape.lean` (which only
+parses the text): sign by the `-`/`+`/space rule; %f: at least one integer digit and no superfluous leading
+zero (in particular the guard `str > &buff[0]` never cuts the number short), the point iff precision > 0 or `#`,
+exactly `precision` fraction digits; %e: exactly one integer digit, nonzero unless the value is zero (then all
+digits are 0 and the exponent is +00), the point rule, exactly `precision` fraction digits, `e`/`E`, a sign, at
+least two exponent digits and a third only if needed (no leading zero, never `-00`); padded to the width on
+the right with blanks (`-`), with zeros after the sign (`0` without `-`) or with blanks on the left; total
+length max(width, length without padding). -/
+theorem print_f_iso_shape_b64 (fuel : ℕ) (hfuel : 358 ≤ fuel) (neg : Bool) (x : ℚ) (hx : IsB64 x) (nanNeg : Bool)
+    (width precision : ℤ) (hp0 : 0 ≤ precision) (hp1 : precision ≤ 2147483647) (ops : Ops) (withExp : Bool) :
+    ∃ out pc, printF b64A cfgNow fuel (.fin neg x) nanNeg width precision ops withExp false = .ok (out, pc) ∧
+      isoShape (if withExp then .e else .f) ops width precision neg out = true := by
+  rw [b64A_eq]
+  obtain ⟨r1, r2⟩ := b64_range hx
+  exact printF_shape_fe lawful64 sharp64 powHost 358 fuel neg x nanNeg width precision ops withExp hx.2 hx.1 r1 r2 hfuel
+    (by norm_num) (by norm_num) hp0 hp1
+example : isoShape .e {} 0 0 false "1.500000e+00".toList = true ∧ isoShape .e {} 0 0 false "1.500000e+0".toList = false ∧
+    isoShape .f { prec := true, spec := true } 0 0 false "2.".toList = true ∧
+    isoShape .f { prec := true, spec := true } 0 0 false "2".toList = false ∧
+    isoShape .e {} 0 0 false "1.000000e+100".toList = true ∧ isoShape .e {} 0 0 false "1.000000e+0100".toList = false := by
+  decide +kernel
+
+/-- the same for every 64-bit pattern that is not an infinity or NaN, at the driver's fuel -/
+theorem print_f_iso_shape_bits (b : ℕ) (hfin : (b >>> 52) % 2048 ≠ 2047) (nanNeg : Bool) (width precision : ℤ)
+    (hp0 : 0 ≤ precision) (hp1 : precision ≤ 2147483647) (ops : Ops) (withExp : Bool) :
+    ∃ neg x out pc, ofBits b = .fin neg x ∧
+      printF b64A cfgNow FUEL (ofBits b) nanNeg width precision ops withExp false = .ok (out, pc) ∧
+      isoShape (if withExp then .e else .f) ops width precision neg out = true := by
+  obtain ⟨neg, x, hb, hx⟩ := ofBits_isB64 b hfin
+  obtain ⟨out, pc, h1, h2⟩ := print_f_iso_shape_b64 FUEL (by decide) neg x hx nanNeg width precision hp0 hp1 ops withExp
+  exact ⟨neg, x, out, pc, hb, by rw [hb]; exact h1, h2⟩
+
+/-- **print_f_iso_shape_lawful** — the same for every rounding that satisfies `Lawful` and `Sharp` (rounding does
+not cross a natural number, 10·x < 10 for x < 1, non-integers are below 2^52, the fraction of a value ≥ 1 is
+zero or ≥ 2^-52, results below 2^1024, u, d ≤ 2^-10) and any `pow`; `sharp64` is the instance for binary64.
+(Exact rational arithmetic is NOT sharp: there the buffer guard can cut an integer part short, audit item 4.) -/
+theorem print_f_iso_shape_lawful {rnd : Rounding} (L : Lawful rnd) (S : Sharp L) (pw : Nat → Nat → FV) (N fuel : ℕ)
+    (hfuel : N ≤ fuel) (hN : N ≤ 998) (neg : Bool) (x : ℚ) (hx : rnd x = some x) (h0 : 0 ≤ x) (hhi : x < 10 * 8 ^ N)
+    (hlo : x = 0 ∨ 1 ≤ x * 8 ^ N) (nanNeg : Bool) (width precision : ℤ) (hp0 : 0 ≤ precision)
+    (hp1 : precision ≤ 2147483647) (ops : Ops) (withExp : Bool) :
+    ∃ out pc, printF (arithP rnd pw) cfgNow fuel (.fin neg x) nanNeg width precision ops withExp false = .ok (out, pc) ∧
+      isoShape (if withExp then .e else .f) ops width precision neg out = true :=
+  printF_shape_fe L S pw N fuel neg x nanNeg width precision ops withExp hx h0 hhi hlo hfuel (by omega) (by omega) hp0 hp1
+example : Sharp lawful64 := sharp64
+
+/-- **print_f_guard_never_truncates_b64** (audit item 4, `%.340f` of 1e308 and everything else) — for EVERY finite
+binary64 argument and EVERY precision 0..INT_MAX (in particular ≤ PRINT_F_FRAC_MAX) of %f / %e: the buffer that
+`fillBuf` returns is exactly what the UNGUARDED integer-digit loop (the original loop, without
+`&& (str > &buff[0])`) produces after the fraction digits and the point — the guard never fires, the integer part
+is printed completely.  The constants suffice because (a) with no generated fraction digit at most 2 bytes are in
+use and an integer part below 2^1024 + 1 < 8^342 takes at most 342 passes (each pass divides by more than 8):
+344 ≤ 352; (b) if fraction digits were generated the argument is a non-integer double, hence below 2^52, and
+either it is below 1 (one integer digit, ≤ 343 bytes) or its fraction is at least 2^-52, so the fraction loop
+stops after at most 35 passes (each multiplies by at least 8; values ≥ 2^52 are integers): 37 + 18 bytes.
+Over exact rationals this is FALSE (the audit's probe 1e308+7 with 340 fraction digits): `Sharp` is needed. -/
+theorem print_f_guard_never_truncates_b64 (fuel : ℕ) (hfuel : 358 ≤ fuel) (x : ℚ) (hx : IsB64 x)
+    (precision : ℤ) (hp0 : 0 ≤ precision) (hp1 : precision ≤ 2147483647) (ops : Ops) (withExp : Bool) :
+    ∃ (d : Digits FV) (bf : Buf) (dotfrac : List Char),
+      digitsOf b64A cfgNow fuel (.fin false x) precision ops withExp false = .ok d ∧
+      fillBuf b64A cfgNow ops false d = .ok bf ∧
+      intLoop b64A { cfgNow with repaired := false } ops.upper (cfgNow.size + 1) d.ip
+        { post := bf.post, sep := bf.sep, body := dotfrac } = .ok bf := by
+  rw [b64A_eq]
+  obtain ⟨r1, r2⟩ := b64_range hx
+  exact printF_int_unguarded lawful64 sharp64 powHost 358 fuel x precision ops withExp hx.2 hx.1 r1 r2 hfuel
+    (by norm_num) (by norm_num) hp0 hp1
+
+/-- **finding C13-g-style-carry against the shape predicate**: the text the model prints for `%g` of 999999.5
+(`print_f_g_style_carry_witness`) is REJECTED by `isoShape` (style f with X = 6 = P), the ISO text is accepted.
+The shape of `%g` is not proved: outside this class it is carried by the harness (the same predicate, in C++). -/
+theorem print_f_iso_shape_g_witness :
+    resOf (printF exactA cfgNow 50 (.fin false (1999999 / 2)) false 0 0 {} false true) = .done "1000000".toList 7 ∧
+    isoShape .g {} 0 0 false "1000000".toList = false ∧ isoShape .g {} 0 0 false "1e+06".toList = true := by
+  decide +kernel
+
+/-- **print_f_digits_error_e_partial** (accumulated rounding error of the digit generation, %e; `_partial`: restricted
+to arguments in the normal range `d ≤ x·u`, i.e. denormals are excluded, and to precision ≤ PRINT_F_FRAC_MAX) — for ANY lawful rounding
+with unit roundoff `u`: the decimal number `(a + b/10^sc)·10^e` whose digits `digitsOf` hands to the emission loops
+(`a` = integer digit, `b` = the `sc` generated fraction digits as an integer, `e` = decimal exponent) differs from
+the argument by at most HALF A UNIT of the last printed digit plus `2·K·u·|x|`, `K = |e| + 2 + sc` = the number of
+rounded scaling operations (|e| + 2 passes of the two normalisation loops at most, one multiplication per generated
+fraction digit), whenever `K·u ≤ 1/2`.  Proved by induction over normDown / normUp / the fraction loop with the
+(1+δ) lemma (`Within`), the only half unit comes from `roundl`.  Hypotheses: the argument is representable and in
+the normal range (`d ≤ x·u`), fractions of values ≥ 1 are not tiny, 10·v < 10 for v < 1 (`TenOk`; needed: without it
+the code's renormalisation adds the already scaled fraction), `POW(10, n) = 10^n` up to the precision, precision ≤
+PRINT_F_FRAC_MAX. -/
+theorem print_f_digits_error_e_partial {rnd : Rounding} (L : Lawful rnd) (pw : Nat → Nat → FV) (N fuel : ℕ) (x : ℚ)
+    (precision : ℤ) (ops : Ops)
+    (hx : rnd x = some x) (h0 : 0 < x) (hN : x < 10 * 8 ^ N) (hN' : 1 ≤ x * 8 ^ N) (hf : N ≤ fuel)
+    (hNb : N + 2 ≤ 2 ^ 30) (hp0 : 0 ≤ precision) (hp1 : precision ≤ 340)
+    (hdu : L.d ≤ L.u) (hdn : L.d ≤ x * L.u)
+    (hfr : ∀ v, rnd v = some v → 1 ≤ v → v - FV.flr v = 0 ∨ L.d ≤ (v - FV.flr v) * L.u)
+    (hten : TenOk rnd)
+    (hpw : ∀ n : ℕ, (n : ℤ) ≤ (if ops.prec then precision else 6) → pw 10 n = .fin false ((10 : ℚ) ^ n)) :
+    ∃ (d : Digits FV) (a b : ℚ) (e : ℤ),
+      digitsOf (arithP rnd pw) cfgNow fuel (.fin false x) precision ops true false = .ok d ∧
+      d.ip = .fin false a ∧ d.fp = .fin false b ∧ d.ep = epv e ∧ d.withExp = true ∧
+      d.precision = (if ops.prec then precision else 6) ∧ (d.signCount : ℤ) ≤ d.precision ∧
+      e.natAbs ≤ N + 1 ∧
+      ∀ K : ℕ, e.natAbs + 2 + d.signCount ≤ K → (K : ℚ) * L.u ≤ 1 / 2 →
+        |(a + b / 10 ^ d.signCount) * (10 : ℚ) ^ e - x|
+          ≤ 1 / 2 * (10 : ℚ) ^ (e - d.precision) + 2 * K * L.u * x :=
+  digits_error_e L pw N fuel x precision ops hx h0 hN hN' hf hNb hp0 hp1 hdu hdn hfr hten hpw
+
+/-- **print_f_digits_error_f_partial** (%f): no normalisation; `|a + b/10^sc − x| ≤ ½·10^-precision + 2·K·u·x`,
+`K = sc + 1` (one multiplication per generated fraction digit, one rounded `ip + 1.0` on a carry). -/
+theorem print_f_digits_error_f_partial {rnd : Rounding} (L : Lawful rnd) (pw : Nat → Nat → FV) (fuel : ℕ) (x : ℚ)
+    (precision : ℤ) (ops : Ops)
+    (hx : rnd x = some x) (h0 : 0 < x) (hp0 : 0 ≤ precision) (hp1 : precision ≤ 340)
+    (hdu : L.d ≤ L.u) (hdn : L.d ≤ x * L.u)
+    (hfr : ∀ v, rnd v = some v → 1 ≤ v → v - FV.flr v = 0 ∨ L.d ≤ (v - FV.flr v) * L.u)
+    (hpw : ∀ n : ℕ, (n : ℤ) ≤ (if ops.prec then precision else 6) → pw 10 n = .fin false ((10 : ℚ) ^ n))
+    (hint : (if ops.prec then precision else 6) = 0 → ∀ (n : ℕ) (v : ℚ), rnd (n : ℚ) = some v → FV.flr v = v) :
+    ∃ (d : Digits FV) (a b : ℚ),
+      digitsOf (arithP rnd pw) cfgNow fuel (.fin false x) precision ops false false = .ok d ∧
+      d.ip = .fin false a ∧ d.fp = .fin false b ∧ d.ep = epv 0 ∧ d.withExp = false ∧
+      d.precision = (if ops.prec then precision else 6) ∧ (d.signCount : ℤ) ≤ d.precision ∧
+      ∀ K : ℕ, d.signCount + 1 ≤ K → (K : ℚ) * L.u ≤ 1 / 2 →
+        |a + b / 10 ^ d.signCount - x| ≤ 1 / 2 * (10 : ℚ) ^ (-d.precision) + 2 * K * L.u * x :=
+  digits_error_f L pw fuel x precision ops hx h0 hp0 hp1 hdu hdn hfr hpw hint
+example : TenOk (some : Rounding) ∧ TenOk rnd64 := ⟨tenOk_exact, tenOk64⟩
+
+/-- **print_f_digits_error_e_b64_partial** — the instance for binary64 (`u = 2^-53`), every hypothesis on the
+arithmetic discharged.  RESTRICTED (hence `_partial`) to arguments in the normal range (x ≥ 2^-1022; for denormals
+the law `error ≤ max(q·u, d)` is too weak although the operations are in fact exact) and to precision ≤ 22 (the
+carry test compares with the host's `pow(10, n)`, which is 10^n exactly only for n ≤ 22).
+COROLLARY in the same statement ("correctly rounded up to one unit"): whenever `2·K·2^-53·x ≤ ½` unit of the last
+digit — e.g. |e| + p + 2 ≤ 2^(52 − 3.33·(p+1)), i.e. p ≤ 15 − log10 K — the printed decimal is within ONE unit of the
+last printed digit of x, i.e. it is one of the two decimals of that precision that enclose x or their neighbour on the
+rounding boundary; beyond that the recorded input of C13-ulp-drift (`%.17e` of 1.9093183950992952e+230: 17 ulps
+over half a unit) shows that the K·u term is real. -/
+theorem print_f_digits_error_e_b64_partial (N fuel : ℕ) (x : ℚ) (precision : ℤ) (ops : Ops)
+    (hx : rnd64 x = some x) (hnorm : pow2 (-1022) ≤ x) (hN : x < 10 * 8 ^ N) (hN' : 1 ≤ x * 8 ^ N) (hf : N ≤ fuel)
+    (hNb : N + 2 ≤ 2 ^ 30) (hp0 : 0 ≤ precision) (hp1 : precision ≤ 22) :
+    ∃ (d : Digits FV) (a b : ℚ) (e : ℤ),
+      digitsOf b64A cfgNow fuel (.fin false x) precision ops true false = .ok d ∧
+      d.ip = .fin false a ∧ d.fp = .fin false b ∧ d.ep = epv e ∧ d.withExp = true ∧
+      d.precision = (if ops.prec then precision else 6) ∧ (d.signCount : ℤ) ≤ d.precision ∧ e.natAbs ≤ N + 1 ∧
+      ∀ K : ℕ, e.natAbs + 2 + d.signCount ≤ K → (K : ℚ) * pow2 (-53) ≤ 1 / 2 →
+        |(a + b / 10 ^ d.signCount) * (10 : ℚ) ^ e - x|
+            ≤ 1 / 2 * (10 : ℚ) ^ (e - d.precision) + 2 * K * pow2 (-53) * x ∧
+        (2 * K * pow2 (-53) * x ≤ 1 / 2 * (10 : ℚ) ^ (e - d.precision) →
+          |(a + b / 10 ^ d.signCount) * (10 : ℚ) ^ e - x| ≤ (10 : ℚ) ^ (e - d.precision)) := by
+  obtain ⟨d, a, b, e, h1, h2, h3, h4, h5, h6, h7, h8, h9⟩ :=
+    digits_error_e_b64 N fuel x precision ops hx hnorm hN hN' hf hNb hp0 hp1
+  refine ⟨d, a, b, e, h1, h2, h3, h4, h5, h6, h7, h8, fun K hK hKu => ?_⟩
+  have := h9 K hK hKu
+  exact ⟨this, fun hsmall => by linarith⟩
+
+/-- the same for %f (K = generated fraction digits + 1) -/
+theorem print_f_digits_error_f_b64_partial (fuel : ℕ) (x : ℚ) (precision : ℤ) (ops : Ops)
+    (hx : rnd64 x = some x) (hnorm : pow2 (-1022) ≤ x) (hp0 : 0 ≤ precision) (hp1 : precision ≤ 22) :
+    ∃ (d : Digits FV) (a b : ℚ),
+      digitsOf b64A cfgNow fuel (.fin false x) precision ops false false = .ok d ∧
+      d.ip = .fin false a ∧ d.fp = .fin false b ∧ d.ep = epv 0 ∧ d.withExp = false ∧
+      d.precision = (if ops.prec then precision else 6) ∧ (d.signCount : ℤ) ≤ d.precision ∧
+      ∀ K : ℕ, d.signCount + 1 ≤ K → (K : ℚ) * pow2 (-53) ≤ 1 / 2 →
+        |a + b / 10 ^ d.signCount - x| ≤ 1 / 2 * (10 : ℚ) ^ (-d.precision) + 2 * K * pow2 (-53) * x ∧
+        (2 * K * pow2 (-53) * x ≤ 1 / 2 * (10 : ℚ) ^ (-d.precision) →
+          |a + b / 10 ^ d.signCount - x| ≤ (10 : ℚ) ^ (-d.precision)) := by
+  obtain ⟨d, a, b, h1, h2, h3, h4, h5, h6, h7, h9⟩ := digits_error_f_b64 fuel x precision ops hx hnorm hp0 hp1
+  refine ⟨d, a, b, h1, h2, h3, h4, h5, h6, h7, fun K hK hKu => ?_⟩
+  have := h9 K hK hKu
+  exact ⟨this, fun hsmall => by linarith⟩
+
+/-- exact arithmetic (u = 0): the digits are the correctly rounded ones — half a unit, nothing else
+(`print_f_exact_Q`, which the first round could only sample) -/
+theorem print_f_exact_e (N fuel : ℕ) (x : ℚ) (precision : ℤ) (ops : Ops) (h0 : 0 < x) (hN : x < 10 * 8 ^ N)
+    (hN' : 1 ≤ x * 8 ^ N) (hf : N ≤ fuel) (hNb : N + 2 ≤ 2 ^ 30) (hp0 : 0 ≤ precision) (hp1 : precision ≤ 340) :
+    ∃ (d : Digits FV) (a b : ℚ) (e : ℤ),
+      digitsOf exactA cfgNow fuel (.fin false x) precision ops true false = .ok d ∧
+      d.ip = .fin false a ∧ d.fp = .fin false b ∧ d.ep = epv e ∧
+      |(a + b / 10 ^ d.signCount) * (10 : ℚ) ^ e - x| ≤ 1 / 2 * (10 : ℚ) ^ (e - d.precision) := by
+  obtain ⟨d, a, b, e, h1, h2, h3, h4, _, h9⟩ := digits_error_e_exact N fuel x precision ops h0 hN hN' hf hNb hp0 hp1
+  exact ⟨d, a, b, e, h1, h2, h3, h4, h9⟩
 
 end Igris.C13
